@@ -110,12 +110,12 @@ def scan_trusted(text):
     return sorted(set(out))
 
 
-def run_unit(unit, threads=4, extra_args=None, rlimit=None):
+def run_unit(unit, threads=4, extra_args=None, rlimit=None, rlimit_scale=1.0):
     ur = UnitRun(unit)
     t0 = time.time()
     udir = os.path.join(VERIF, "units", unit)
     os.makedirs(WORK, exist_ok=True)
-    gen_path = os.path.join(WORK, f"{unit}.rs")
+    gen_path = os.path.join(WORK, f"{unit}.rs" if rlimit_scale == 1.0 else f"{unit}_stab.rs")
     try:
         ur.log = splice.build(udir, gen_path)
     except splice.LostAnchor as e:
@@ -136,7 +136,7 @@ def run_unit(unit, threads=4, extra_args=None, rlimit=None):
     except Exception:
         pass
     cmd = [VERUS, gen_path, "--error-format=json", "--output-json", "--time-expanded", "--multiple-errors", "200",
-           "--rlimit", str(rlimit or RLIMIT), "--num-threads", str(threads)] + (extra_args or [])
+           "--rlimit", str(max(1, int((rlimit or RLIMIT) * rlimit_scale))), "--num-threads", str(threads)] + (extra_args or [])
     ur.cmd = " ".join(cmd)
     env = dict(os.environ)
     p = subprocess.run(cmd, capture_output=True, text=True, cwd=WORK, env=env)
@@ -348,6 +348,23 @@ def decide(prop, tier, seed):
         for f in cf.as_completed(futs):
             results.append(f.result())
     results.sort(key=lambda r: r.unit)
+    unstable = []
+    if tier == "thorough":
+        # stability re-run: half the resource limit and a different solver seed; an obligation that only passes at the
+        # full limit is reported as unstable (exit code unaffected)
+        with cf.ThreadPoolExecutor(max_workers=8) as ex:
+            futs = {ex.submit(run_unit, u, nthreads, ["--smt-option", f"smt.random_seed={seed + 1}"], None, 0.5): u for u in units}
+            first = {r.unit: {o["name"] for o in r.failed} | set(r.undecided) for r in results}
+            for f in cf.as_completed(futs):
+                r2 = f.result()
+                for o in r2.failed:
+                    if o["name"] not in first.get(r2.unit, set()):
+                        unstable.append(o["name"])
+                for u in r2.undecided:
+                    if u not in first.get(r2.unit, set()):
+                        unstable.append("undecided at half rlimit: " + u)
+        for u in unstable:
+            print(f"UNSTABLE: {u}")
     kres = kani_run.run_for(prop, tier)
     violations, knowns, undecided = [], [], []
     obligations = 0
@@ -451,6 +468,7 @@ def decide(prop, tier, seed):
             "known_findings_matched": [{"obligation": o["name"], "what": k["what"]} for o, k in knowns],
             "failed_obligations": [o["name"] for o, _ in violations],
             "undecided": undecided,
+            "unstable_at_half_rlimit_other_seed": unstable,
             "samples": samples[:12] or ["none"],
         },
         "assumptions": sorted(trusted)[:200],
